@@ -428,7 +428,7 @@ func TestC34(t *testing.T) {
 			"the connection-less engine values are configured like the constructors configure them (prefix default, messagePrefix, partitionTags from redispartition.FindTags); only configurations the constructors accept are evaluated",
 			"the RedisMapBroker cleanup worker's own cleanup key (built inline in cleanupShard next to a Redis call) is not observable without Redis and is not covered",
 		},
-		Cases:           map[string]int{"quick": enumCases + 1000, "thorough": enumCases + 20000},
+		Cases:           map[string]int{"quick": enumCases + 600, "thorough": enumCases + 20000},
 		RequireCounters: []string{"cluster_ops_colocated", "extract_roundtrip_broker", "extract_roundtrip_map_broker", "names_leading_close_brace", "names_with_braces", "colocated_redis-broker_cluster", "colocated_redis-broker_cluster-sharded-precomputed", "colocated_redis-map-broker_cluster-sharded", "colocated_redis-presence_cluster"},
 		Run:             run,
 	})
